@@ -20,15 +20,15 @@ V_FREES(g_evq)
 V_ENSURES(V_IMP(V_OLD(g_evq->len) == 0, g.evt_cb_calls == V_OLD(g.evt_cb_calls) && g.ref_calls == V_OLD(g.ref_calls)))                      /*@C17.no-invocation-for-empty-batch*/
 /* exactly one invocation, of the handler that was on top of the become-stack WHEN THE DELIVERY STARTED (a change made
  * inside the handler only affects the next delivery), else the registration-time handler; with this module and these events */
-V_ENSURES(V_IMP(V_OLD(g_evq->len) > 0, g.evt_cb_calls == V_OLD(g.evt_cb_calls) + 1 && g.evt_cb_mod == g_mod && g.evt_cb_q == g_evq
-                && g.evt_cb_which == (V_OLD(g_recvs->len) > 0 ? 1 : 0)))                                                                     /*@C17.most-recent-handler-else-original*/
+V_ENSURES(V_IMP(V_OLD(g_evq->len) > 0, g.evt_cb_calls == V_OLD(g.evt_cb_calls) + 1 && __CPROVER_pointer_equals(g.evt_cb_mod, g_mod) && __CPROVER_pointer_equals(g.evt_cb_q, g_evq
+               ) && g.evt_cb_which == (V_OLD(g_recvs->len) > 0 ? 1 : 0)))                                                                     /*@C17.most-recent-handler-else-original*/
 /* the module is pinned while user code runs, the pin is dropped afterwards (balanced) */
-V_ENSURES(V_IMP(V_OLD(g_evq->len) > 0, g.ref_calls == V_OLD(g.ref_calls) + 1 && g.ref_arg == (void *)g_mod
-                && g.unref_calls == V_OLD(g.unref_calls) + 1 && g.unref_arg == (void *)g_mod))                                               /*@C04.module-pinned-during-callback*/
+V_ENSURES(V_IMP(V_OLD(g_evq->len) > 0, g.ref_calls == V_OLD(g.ref_calls) + 1 && __CPROVER_pointer_equals(g.ref_arg, (void *)g_mod
+               ) && g.unref_calls == V_OLD(g.unref_calls) + 1 && __CPROVER_pointer_equals(g.unref_arg, (void *)g_mod)))                                               /*@C04.module-pinned-during-callback*/
 V_ENSURES(g_ctx->curr_mod == V_OLD(g_ctx->curr_mod))                                                                                        /*@C15.current-module-restored-after-nested-callback*/
 V_ENSURES(V_IMP(V_OLD(g_evq->len) > 0, g_mod->stats.recv_msgs == V_OLD(g_mod->stats.recv_msgs) + V_OLD(g_evq->len)))                         /*@C02.received-counter-exact*/
 /* the delivered batch is released exactly once, after the handler returned */
-V_ENSURES(g.qfree_calls == V_OLD(g.qfree_calls) + 1 && g.qfree_arg == g_evq)                                                                /*@C04.batch-released-exactly-once*/
+V_ENSURES(g.qfree_calls == V_OLD(g.qfree_calls) + 1 && __CPROVER_pointer_equals(g.qfree_arg, g_evq))                                                                /*@C04.batch-released-exactly-once*/
 ;
 
 #else                  /* as a callee of flush_pubsub_msgs(): only what the caller needs */
@@ -36,7 +36,7 @@ V_CONTRACT
 void call_pubsub_cb(m_mod_t *mod, m_queue_t *evts)
 V_REQUIRES(mod != NULL && V_Q_OK(evts))
 V_ASSIGNS(g.cb_calls, g.cb_mod, g.cb_q, g.cb_qlen)
-V_ENSURES(g.cb_calls == V_OLD(g.cb_calls) + 1 && g.cb_mod == mod && g.cb_q == evts && g.cb_qlen == evts->len)
+V_ENSURES(g.cb_calls == V_OLD(g.cb_calls) + 1 && __CPROVER_pointer_equals(g.cb_mod, mod) && __CPROVER_pointer_equals(g.cb_q, evts) && g.cb_qlen == evts->len)
 ;
 #endif
 
@@ -52,7 +52,7 @@ V_CONTRACT
 ssize_t v_write(int fd, const void *buf, size_t n)
 V_REQUIRES(buf != NULL && n == sizeof(void *) && V_R_OK(buf, sizeof(void *)))
 V_ASSIGNS(g.write_calls, g.write_fd, g.write_ptr, g.pipe_len, g_errno)
-V_ENSURES(g.write_calls == V_OLD(g.write_calls) + 1 && g.write_fd == fd && g.write_ptr == *(void *const *)buf)
+V_ENSURES(g.write_calls == V_OLD(g.write_calls) + 1 && g.write_fd == fd && __CPROVER_pointer_equals(g.write_ptr, *(void *const *)buf))
 V_ENSURES(g_pipe_full ? (V_RET == -1 && g.pipe_len == V_OLD(g.pipe_len)) : (V_RET == (ssize_t)sizeof(void *) && g.pipe_len == V_OLD(g.pipe_len) + 1))
 ;
 
@@ -70,11 +70,11 @@ V_ENSURES(V_IMP(!V_TELL_ELIGIBLE, g.memnew_calls == V_OLD(g.memnew_calls) && g.w
 /* eligible: exactly one copy, at most once; it carries the sender, topic, payload pointer and flags the sender supplied and the
  * matched subscription; it keeps the sender alive; it is appended at the tail of the recipient's pipe */
 V_ENSURES(V_IMP(V_TELL_ELIGIBLE, g.memnew_calls == V_OLD(g.memnew_calls) + 1))                                                             /*@C02.exactly-one-copy-per-eligible-recipient*/
-V_ENSURES(V_IMP(V_TELL_ELIGIBLE && !g_alloc_fails, g.write_calls == V_OLD(g.write_calls) + 1 && g.write_fd == g_mod->pubsub_fd[1] && g.write_ptr == g.memnew_ret
-                && g.pipe_len == V_OLD(g.pipe_len) + (g_pipe_full ? 0 : 1)))                                                                /*@C08.appended-at-the-tail-of-the-recipients-pipe*/
-V_ENSURES(V_IMP(V_TELL_ELIGIBLE && !g_alloc_fails, g.ref_calls == V_OLD(g.ref_calls) + 1 && g.ref_arg == (void *)g_msg->msg.sender))           /*@C04.in-flight-message-keeps-its-sender-alive*/
+V_ENSURES(V_IMP(V_TELL_ELIGIBLE && !g_alloc_fails, g.write_calls == V_OLD(g.write_calls) + 1 && g.write_fd == g_mod->pubsub_fd[1] && __CPROVER_pointer_equals(g.write_ptr, g.memnew_ret
+               ) && g.pipe_len == V_OLD(g.pipe_len) + (g_pipe_full ? 0 : 1)))                                                                /*@C08.appended-at-the-tail-of-the-recipients-pipe*/
+V_ENSURES(V_IMP(V_TELL_ELIGIBLE && !g_alloc_fails, g.ref_calls == V_OLD(g.ref_calls) + 1 && __CPROVER_pointer_equals(g.ref_arg, (void *)g_msg->msg.sender)))           /*@C04.in-flight-message-keeps-its-sender-alive*/
 /* pipe full: the COPY is released exactly once; the caller's message object (which is not reference counted) is left alone */
-V_ENSURES(V_IMP(V_TELL_ELIGIBLE && !g_alloc_fails && g_pipe_full, g.unref_calls == V_OLD(g.unref_calls) + 1 && g.unref_arg == g.memnew_ret))  /*@C04.undeliverable-copy-released-not-the-callers-message*/
+V_ENSURES(V_IMP(V_TELL_ELIGIBLE && !g_alloc_fails && g_pipe_full, g.unref_calls == V_OLD(g.unref_calls) + 1 && __CPROVER_pointer_equals(g.unref_arg, g.memnew_ret)))  /*@C04.undeliverable-copy-released-not-the-callers-message*/
 V_ENSURES(V_IMP(!(V_TELL_ELIGIBLE && !g_alloc_fails && g_pipe_full), g.unref_calls == V_OLD(g.unref_calls)))
 ;
 
@@ -92,7 +92,7 @@ V_CONTRACT
 evt_priv_t *new_evt(ev_src_t *src)
 V_REQUIRES(src == NULL || V_R_OK(src, sizeof(ev_src_t)))             /* a message sent by tell/broadcast has no subscription: src may be NULL */
 V_ASSIGNS(g.newevt_calls, g.newevt_src)
-V_ENSURES(__CPROVER_is_fresh(V_RET, sizeof(evt_priv_t)) && V_RET->src == src && V_RET->evt.fd_evt == NULL && g.newevt_calls == V_OLD(g.newevt_calls) + 1 && g.newevt_src == src)
+V_ENSURES(__CPROVER_is_fresh(V_RET, sizeof(evt_priv_t)) && V_RET->src == src && V_RET->evt.fd_evt == NULL && g.newevt_calls == V_OLD(g.newevt_calls) + 1 && __CPROVER_pointer_equals(g.newevt_src, src))
 ;
 V_CONTRACT
 int fs_ctx_stopped(m_mod_t *mod)
@@ -112,7 +112,7 @@ V_ASSIGNS(g.read_calls, g.pipe_len, g_errno, g.qnew_calls, g.qnew_ret, g.newevt_
 V_ENSURES(V_RET == 0 && g.pipe_len == 0)                                                                                                    /*@C02.flush-drains-the-pipe*/
 /* loop stop with the module RUNNING: every pending message is handed over (none released), in pipe order, in ONE handler invocation */
 V_ENSURES(V_IMP(key != NULL && g_mod->state == M_MOD_RUNNING, g.enq_calls == g_e0 + g_P0 && g.unref_calls == g_u0
-                && g.cb_calls == g_cb0 + 1 && g.cb_mod == g_mod && g.cb_q == g.qnew_ret && g.cb_qlen == g_P0))                                /*@C02.pending-messages-delivered-at-loop-stop-in-one-invocation*/
+                && g.cb_calls == g_cb0 + 1 && __CPROVER_pointer_equals(g.cb_mod, g_mod) && __CPROVER_pointer_equals(g.cb_q, g.qnew_ret) && g.cb_qlen == g_P0))                                /*@C02.pending-messages-delivered-at-loop-stop-in-one-invocation*/
 /* module stopping, or not RUNNING when the loop ends: every pending message is discarded, each released exactly once, none delivered */
 V_ENSURES(V_IMP(key == NULL || g_mod->state != M_MOD_RUNNING, g.unref_calls == g_u0 + g_P0 && g.enq_calls == g_e0 && g.cb_qlen == 0))         /*@C02.discarded-when-recipient-stops-or-is-not-running*/
 ;
